@@ -2,7 +2,7 @@
    Statements only; every proof is `exact <lemma>`.  Scalars are the reals.  Hypotheses: the viewing direction d is
    non-zero and up is not parallel to it (d x up <> 0). *)
 From CG Require Import Scalar Model.Vector Model.Point Model.Matrix Model.Angle Model.Quaternion Model.Metric Model.Rotation Model.Transform
-                       Proofs.Alg Proofs.RealInst Proofs.C09_LookR.
+                       Proofs.Alg Proofs.RealInst Proofs.C09_LookR Proofs.C09_QuatR.
 From Coq Require Import List QArith Reals.
 Local Close Scope Q_scope.
 Local Open Scope R_scope.
@@ -68,6 +68,29 @@ Theorem C09_decomposed : forall (eye center : P3 R) (up : V3 R),
   dec_look_at O (RotBasis3 O) (Space3 O) (basis3_look_at O T) eye center up = Dl.
 Proof. exact dec_look_at_basis3. Qed.
 Print Assumptions C09_decomposed.
+
+(* 4b. Quaternion::look_at(d, up) is a unit quaternion whose matrix is exactly Matrix3::look_to_lh(d, up), so it rotates
+       every vector and point as that matrix does; Decomposed<Vector3, Quaternion>::look_at_rh / look_at_lh / look_at have
+       scale 1, a unit rotation with the matrix of the same handedness, and act on every point as the Matrix4 of the same
+       handedness (so the eye goes to the origin).  (Rests on C05_back_conversion_all_rotations.) *)
+Theorem C09_quaternion : forall d up : V3 R, 0 < v3_magnitude2 O d -> 0 < v3_magnitude2 O (v3_cross O d up) ->
+  let q := quat_look_at O T d up in
+  quat_magnitude2 O q = 1 /\ m3_of_quat O q = m3_look_to_lh O T d up /\
+  (forall v, quat_rotate_vector O q v = m3_mul_v O (m3_look_to_lh O T d up) v) /\
+  (forall p, quat_rotate_point O q p = p3_from_vec (m3_mul_v O (m3_look_to_lh O T d up) (p3_to_vec p))).
+Proof. exact quat_look_at_spec. Qed.
+Print Assumptions C09_quaternion.
+Theorem C09_decomposed_quaternion : forall (eye center : P3 R) (up : V3 R),
+  0 < v3_magnitude2 O (p3_sub_p O center eye) -> 0 < v3_magnitude2 O (v3_cross O (p3_sub_p O center eye) up) ->
+  let Dr := dec_look_at_rh O (RotQuat O) (Space3 O) (quat_look_at O T) eye center up in
+  let Dl := dec_look_at_lh O (RotQuat O) (Space3 O) (quat_look_at O T) eye center up in
+  d_scale Dr = 1 /\ quat_magnitude2 O (d_rot Dr) = 1 /\ m3_of_quat O (d_rot Dr) = m3_look_to_rh O T (p3_sub_p O center eye) up /\
+  (forall p, dec_transform_point (RotQuat O) (Space3 O) Dr p = m4_transform_point O (m4_look_at_rh O T eye center up) p) /\
+  d_scale Dl = 1 /\ quat_magnitude2 O (d_rot Dl) = 1 /\ m3_of_quat O (d_rot Dl) = m3_look_to_lh O T (p3_sub_p O center eye) up /\
+  (forall p, dec_transform_point (RotQuat O) (Space3 O) Dl p = m4_transform_point O (m4_look_at_lh O T eye center up) p) /\
+  dec_look_at O (RotQuat O) (Space3 O) (quat_look_at O T) eye center up = Dl.
+Proof. exact dec_look_at_quat. Qed.
+Print Assumptions C09_decomposed_quaternion.
 
 (* 5. 2-D: Matrix2 / Basis2::look_at(d, up) has orthonormal columns, the first equal to d/|d|, the second on the side of up *)
 Theorem C09_look_at_2d : forall d up : V2 R, 0 < v2_magnitude2 O d ->
